@@ -8,6 +8,7 @@ import (
 	"strconv"
 	"strings"
 
+	"github.com/freeconf/yang/fc"
 	"github.com/freeconf/yang/node"
 	"github.com/freeconf/yang/val"
 
@@ -203,9 +204,17 @@ func JsonContainerReader(container map[string]interface{}) node.Node {
 		}
 		if value, found := fqkGet(r.Meta, container); found {
 			if meta.IsList(r.Meta) {
-				return JsonListReader(value.([]interface{})), nil
+				list, isArray := value.([]interface{})
+				if !isArray {
+					return nil, fmt.Errorf("%w. expected an array for list %s", fc.BadRequestError, r.Meta.Ident())
+				}
+				return JsonListReader(list), nil
 			}
-			return JsonContainerReader(value.(map[string]interface{})), nil
+			object, isObject := value.(map[string]interface{})
+			if !isObject {
+				return nil, fmt.Errorf("%w. expected an object for %s", fc.BadRequestError, r.Meta.Ident())
+			}
+			return JsonContainerReader(object), nil
 		}
 		return
 	}
